@@ -235,3 +235,25 @@ def run(ctx):
     ctx.ob(R7, grl.qual, "the Location header is returned only under membership in REDIRECT_STATUSES", ok)
     other = [r for r in rets if isinstance(r.value, ast.Constant)]
     ctx.ob(R7, grl.qual, "any other status yields False", any(r.value.value is False for r in other))
+
+
+# ---------------------------------------------------------------------------- R8 shared with C04 (added after seeded change C05/disabled-total-stays-false)
+_run_base05 = run
+
+
+def run(ctx):  # noqa: F811
+    _run_base05(ctx)
+    R8 = ctx.rule("C05-R8", "following a redirect spends the policy (shared with C04): in every branch of Retry.increment - the redirect branch included - the total and the branch's own counter handed to the new policy are the decremented ones whenever they are not None, the new policy is the one tested for exhaustion, and retries=False re-raises at once (C04-R6, C04-R9); a branch that keeps `total` unchanged (e.g. leaves False as False) never exhausts a disabled policy, and every redirect is followed", "E4 provenance (shared with C04)")
+    from .c04 import run as _c04
+
+    before = len(ctx.obs)
+    rules_before = dict(ctx.rules)
+    declined_before = list(ctx.declined)
+    _c04(ctx)
+    ctx.declined[:] = declined_before
+    keep_rules = ("C04-R6", "C04-R9")
+    ctx.obs[before:] = [o for o in ctx.obs[before:] if o.rule in keep_rules]
+    for r in list(ctx.rules):
+        if r.startswith("C04-") and r not in keep_rules and r not in rules_before:
+            ctx.rules.pop(r)
+    ctx.ob(R8, "urllib3.util.retry.Retry.increment", f"{len(ctx.obs) - before} shared obligations (C04-R6, C04-R9)", True)
